@@ -41,6 +41,42 @@ MULTILINE = [
     ([("[", False), ("", True), ("  1 ]", False)], ("L", [1])),
 ]
 
+# ---- round 2: characters at which str.splitlines() ends a line although TOML (and str.split("\n")) does
+# not.  U+0085 / U+2028 / U+2029 are legal inside basic and literal strings, comments and quoted keys;
+# tomlkit also tolerates them between a number and the end of the line / a comment; VT, FF, FS, GS, RS
+# inside strings and comments make the document invalid (tomlkit stays the judge).
+LINE_SEPS = ["\u2028", "\u2029", "\u0085"]
+CTRL_SEPS = ["\x0b", "\x0c", "\x1c", "\x1d", "\x1e"]
+# what follows the separator: header / array-header / key / comment look-alikes (keys of the alphabet and
+# fresh ones), an unfinished header, nothing
+SEP_TAILS = ["[zz]", "[t]", "[zz] # x", "[t.u]", " [zz]", "[[a]]", "[x", "[", "a = 1", "zz = 1", "# note", "", "]"]
+N_BASE = len(VALUES)          # VALUES[N_BASE:] are the values below (never chosen by index arithmetic on the old table)
+SEP_STRINGS = []              # indexes into VALUES
+for _sep in LINE_SEPS:
+    for _tail in SEP_TAILS:
+        for _q in ('"', "'"):
+            SEP_STRINGS.append(len(VALUES))
+            VALUES.append((_q + "p" + _sep + _tail + _q, ("L", "p" + _sep + _tail)))
+SEP_NUMBERS = []
+# (VT and FF are tolerated there too, but `a = 2<FF>` is not TOML and its commented-out form `#a = 2<FF>` is
+# rejected even by tomlkit - InvalidControlChar -, so every later load raises: tomlkit's leniency, not counted)
+for _sep in LINE_SEPS:
+    for _raw, _v in (("2", 2), ("1.5", 1.5)):
+        SEP_NUMBERS.append(len(VALUES))
+        VALUES.append((_raw + _sep, ("L", _v)))
+SEP_COMMENTS = ["# c" + _sep + _tail for _sep in LINE_SEPS for _tail in SEP_TAILS] + \
+               ["#" + _sep + "[zz]" for _sep in LINE_SEPS]
+SEP_TRAILS = [" # n" + _sep + _tail for _sep in LINE_SEPS for _tail in SEP_TAILS]
+SEP_KEYS = ["k" + _sep + _tail for _sep in LINE_SEPS for _tail in ("[zz]", "[t]", "a = 1", "")]
+P_SEP = 0.015                 # share of values / comments / trailing comments / keys drawn from the above
+
+
+def rand_value(rng):
+    """index into VALUES: mostly the base table"""
+    if rng.random() < P_SEP:
+        return rng.choice(SEP_STRINGS + SEP_STRINGS + SEP_NUMBERS)
+    return rng.randrange(N_BASE)
+
 
 def bare(k):
     return k != "" and all(c.isalnum() and c.isascii() or c in "_-" for c in k)
@@ -68,6 +104,8 @@ class Style:
         return self.pick(["", "", "", "  ", "\t", " "])
 
     def trail(self):
+        if self.rng is not None and self.rng.random() < P_SEP:
+            return self.rng.choice(SEP_TRAILS)
         return self.pick(["", "", "", " # note", "   ", "\t# [x]", " #"])
 
 
@@ -156,9 +194,9 @@ class Builder:
 
     # -- ops -------------------------------------------------------------------------------
     def apply(self, op):
-        """op: ("kv", kpath, value_index) | ("hdr", path) | ("aot", path) | ("comment",) |
-        ("blank",) | ("ml", key, variant).  Returns False when the op would make the document
-        invalid (it is then skipped)."""
+        """op: ("kv", kpath, value_index[, trail]) | ("hdr", path[, trail]) | ("aot", path) |
+        ("comment"[, text]) | ("blank",) | ("ml", key, variant).  Returns False when the op would make
+        the document invalid (it is then skipped)."""
         st = self.style
         try:
             if op[0] == "kv":
@@ -166,14 +204,16 @@ class Builder:
                 self._put(kp)
                 raw, val = VALUES[op[2]]
                 eq = st.pick([" = ", " = ", "=", " =", "= ", "  =  "])
-                self.lines.append((("kv", kp, val), st.indent() + st.path(kp) + eq + raw + st.trail()))
+                trail = op[3] if len(op) > 3 else st.trail()
+                self.lines.append((("kv", kp, val), st.indent() + st.path(kp) + eq + raw + trail))
             elif op[0] == "hdr":
                 p = list(op[1])
                 node = self._open_table(p)
                 self.cur, self.cur_node = p, node
                 self.section += 1
                 sp = st.pick(["", "", " "])
-                self.lines.append((("header", p), st.indent() + "[" + sp + st.path(p) + sp + "]" + st.trail()))
+                trail = op[2] if len(op) > 2 else st.trail()
+                self.lines.append((("header", p), st.indent() + "[" + sp + st.path(p) + sp + "]" + trail))
                 self.headers.append(p)
             elif op[0] == "aot":
                 p = list(op[1])
@@ -183,8 +223,9 @@ class Builder:
                 self.lines.append((("aot", p), st.indent() + "[[" + st.path(p) + "]]" + st.trail()))
                 self.aots.append(p)
             elif op[0] == "comment":
-                self.lines.append((("comment",), st.pick(["# note", "#", "  # k = 1", "#[t]", "# [[x]]", "## a = 2",
-                                                          "\t#tab", "#a = 1"])))
+                text = op[1] if len(op) > 1 else st.pick(["# note", "#", "  # k = 1", "#[t]", "# [[x]]", "## a = 2",
+                                                           "\t#tab", "#a = 1"])
+                self.lines.append((("comment",), text))
             elif op[0] == "blank":
                 self.lines.append((("blank",), st.pick(["", "", "  ", "\t"])))
             elif op[0] == "ml":
@@ -251,11 +292,15 @@ def rand_op(rng, allow_aot, allow_ml):
             kp = [rng.choice(TAB_KEYS + LEAF_KEYS) for _ in range(rng.choice([2, 2, 3]))]
         else:
             kp = [rng.choice(LEAF_KEYS + ["t"])]
-        vi = rng.randrange(len(VALUES)) if rng.random() < 0.5 else rng.choice(TYPE_CHANGE)
+        if rng.random() < P_SEP / 2:
+            kp[-1] = rng.choice(SEP_KEYS)
+        vi = rand_value(rng) if rng.random() < 0.5 else rng.choice(TYPE_CHANGE)
         return ("kv", kp, vi)
     if r < 0.77:
         return ("hdr", rand_path(rng))
     if r < 0.84:
+        if rng.random() < 4 * P_SEP:
+            return ("comment", rng.choice(SEP_COMMENTS))
         return ("comment",)
     if r < 0.90:
         return ("blank",)
@@ -290,7 +335,7 @@ def gen_user_from(rng, default, allow_ml=True):
         r = rng.random()
         if op[0] == "kv":
             if r < 0.35:
-                b.apply(("kv", op[1], rng.choice(TYPE_CHANGE) if rng.random() < 0.6 else rng.randrange(len(VALUES))))
+                b.apply(("kv", op[1], rng.choice(TYPE_CHANGE) if rng.random() < 0.6 else rand_value(rng)))
             elif r < 0.6:
                 b.apply(op)
             elif r < 0.65:
@@ -307,7 +352,7 @@ def gen_user_from(rng, default, allow_ml=True):
             if r < 0.3 and allow_ml:
                 b.apply(op)
             elif r < 0.6:
-                b.apply(("kv", [op[1]], rng.randrange(len(VALUES))))
+                b.apply(("kv", [op[1]], rand_value(rng)))
         else:
             if r < 0.5:
                 b.apply(op)
@@ -373,3 +418,43 @@ def corpus_pairs():
     yield build([K("a", 0), H("t"), K("a", 0)], crlf=True), None
     yield build([K("a", 0), H("t"), K("a", 0)], crlf=True), build([H("t"), K("a", 2)], crlf=True)
     yield build([K("a", 0)], final_newline=False), build([K("a", 2)], final_newline=False)
+    # round 2: one line of the document contains a character at which str.splitlines() would end a line
+    for ops in sep_docs():
+        yield build(ops), None
+    base = build([K("c", 3), H("t"), K("a", 0)])
+    for sep in LINE_SEPS:
+        yield base, build([K("c", sep_string(sep, "[zz]", '"')), H("t"), ("kv", ["a"], 2, " # n" + sep + "[t]")])
+        yield build([K("c", sep_string(sep, "[t]", "'")), H("t"), K("a", 0)]), build([H("t"), K("b", 2)])
+
+
+def sep_string(sep, tail, quote):
+    """index into VALUES of the string  p<sep><tail>  written with the given quote"""
+    return VALUES.index((quote + "p" + sep + tail + quote, ("L", "p" + sep + tail)))
+
+
+def has_line_separator(text):
+    """does a line of the text (split at LF) contain a character at which str.splitlines() splits?"""
+    return any(len(l.rstrip("\r").splitlines()) > 1 or l.rstrip("\r")[-1:] in LINE_SEPS + CTRL_SEPS
+               for l in text.split("\n"))
+
+
+def sep_docs():
+    few = ("[zz]", "[t]", "a = 1", "")
+    for sep in LINE_SEPS:
+        for tail in SEP_TAILS:
+            # basic string value under a header; comment line before a header
+            yield [K("a", 0), H("t"), K("c", sep_string(sep, tail, '"')), K("b", 8)]
+            yield [("comment", "# c" + sep + tail), H("t"), K("a", 0)]
+        for tail in few:
+            yield [K("c", sep_string(sep, tail, "'")), H("t"), K("a", 0)]               # literal string, top level
+            yield [("kv", ["a"], 0, " # n" + sep + tail), ("hdr", ["t"], " # n" + sep + tail), K("a", 2)]  # trailing comments
+            yield [H("t"), ("kv", ["k" + sep + tail], 0), K("a", 2)]                    # quoted key
+            yield [("hdr", ["t", "k" + sep + tail]), K("a", 0)]                          # quoted key in a header
+        yield [("comment", "#" + sep + "[zz]"), K("a", 0)]
+    # tolerated by tomlkit between a number and the end of the line / a comment
+    for i in SEP_NUMBERS:
+        yield [("kv", ["a"], i, ""), K("b", 8)]
+        yield [H("t"), ("kv", ["a"], i, "# [zz]")]
+    # not TOML: a control character of the splitlines() set inside a comment (tomlkit rejects the defaults)
+    for sep in CTRL_SEPS:
+        yield [("comment", "# c" + sep + "[zz]"), K("a", 0)]
